@@ -93,4 +93,14 @@ theorem C04_release_all_fails_without_F07 :
   have := h [.pool 0, .align 0 2, .reserve 0 0 6, .slice 1 0 0 2, .release 0, .release 1] 0 _ rfl rfl
   exact absurd this (by decide)
 
+def cfgNoF07b : Cfg := { Gen.poolCfg with reserveComparesAligned := false }
+
+/-- F07b as a model trace: an empty pool of 4 bytes, alignment changed to 6, reserve 4: the
+    unrepaired comparison accepts the block, reserved = 6 > size = 4 -/
+theorem C04_reserved_le_size_fails_without_F07b :
+    ¬ ∀ (ops : List Op) (i : Nat) (p : Pool), (run cfgNoF07b ops).pool i = some p → p.reserved ≤ p.size := by
+  intro h
+  have := h [.pool 0, .align 0 4, .resize 0 4, .align 0 6, .reserve 0 0 4] 0 _ rfl
+  exact absurd this (by decide)
+
 end Occa.Pool.C04
